@@ -56,7 +56,8 @@ ASSUMPTIONS = [
 BOTH = ('unknown-fn', 'xlfn', 'xlfn-like-known', 'undefined-name', 'ref-literal',
         'ref-literal-arg', 'unknown-fn-nested', 'name-unknown-fn')
 FILES = ('missing-sheet', 'missing-sheet-range', 'missing-book', 'empty-file',
-         'truncated-file', 'directory', 'garbage-file', 'name-missing-sheet')
+         'truncated-file', 'directory', 'garbage-file', 'name-missing-sheet',
+         'link-index')
 NAME_ONLY = {'#NAME?'}
 REF_OR_NAME = {'#REF!', '#NAME?'}
 
@@ -93,6 +94,10 @@ def fault_tree(kind, rng, desc, b):
             desc['names'][nm] = ['val', b, ['raw', 'Gone!$A$1', "'[%s]Gone'!$A$1" % bk]]
             acc = REF_OR_NAME
         return ['bin', '+', ['name', nm], ['lit', 0.0]], acc
+    if kind == 'link-index':
+        # [1] is the first entry of the workbook's link table: a legacy .xls
+        # that does not exist; [2] (used by the bystander cells) is healthy
+        return ['raw', '[1]Sheet1!A1', None], REF_OR_NAME
     if kind == 'ref-literal':
         return ['bin', '+', ['err', '#REF!'], arg], {'#REF!'}
     if kind == 'ref-literal-arg':
@@ -129,6 +134,17 @@ def make_case(seed, i, path=None):
     base = gw.gen(rng)
     path = path or ('xlsx' if i % 2 == 0 else 'dict')
     kinds = list(BOTH) + (list(FILES) if path == 'xlsx' else [])
+    if path == 'xlsx':
+        # every book has a link table [1] legacy.xls (absent), [2] linked.xlsx
+        # and two healthy bystanders reading through [2]
+        base['links'] = {}
+        for b, bk in enumerate(base['books']):
+            base['links'][str(b)] = [['legacy.xls', ['Sheet1']], ['linked.xlsx', ['L']]]
+            cells = bk['sheets'][0]['cells']
+            cells['L11'] = {'f': ['bin', '+', ['raw', '[2]L!A1', None], ['lit', 1.0]]}
+            cells['L12'] = {'f': ['call', 'SUM', [['raw', '[2]L!A1:A2', None]]]}
+    else:
+        kinds = [k for k in kinds if k != 'link-index']
     n = rng.choice((1, 1, 2, 3))
     chosen = [kinds[(i // 2 + j * 5) % len(kinds)] if j == 0 else rng.choice(kinds)
               for j in range(n)]
@@ -209,6 +225,12 @@ def _load(desc, path, tag, stage):
         with open(os.path.join(d, 'garbage.xlsx'), 'w') as f:
             f.write('this is not a workbook\n' * 20)
         os.makedirs(os.path.join(d, 'dir.xlsx'))
+        import openpyxl
+        lw = openpyxl.Workbook()
+        lw.active.title = 'L'
+        lw.active['A1'], lw.active['A2'] = 42.0, 7.0
+        lw.create_sheet('Sheet1')['A1'] = 999.0    # what [1] must never reach
+        lw.save(os.path.join(d, 'linked.xlsx'))
         stage[0] = 'loads'
         m = formulas.ExcelModel().loads(*paths)
         stage[0] = 'finish (complete)'
@@ -289,6 +311,20 @@ def check_case(case, ctx):
                 'observed': xl.show(o), 'accepted': [xl.show(v0) + ' (value in the '
                                                      'workbook without the faults)']})
     ctx.count('monitor.local-cells', n)
+    # the healthy bystanders that read through the link table
+    for b, links in (desc.get('links') or {}).items():
+        for addr, want in (('L11', 43.0), ('L12', 49.0)):
+            key = (int(b), 0) + gw.split_addr(addr)
+            if key in tainted:
+                continue
+            o = observed.get(key, ('missing',))
+            ctx.count('monitor.link-bystanders')
+            if o != xl.c_num(want):
+                ctx.violation('link-bystander:%s->num' % wbrun._cls(o), {
+                    'case': case, 'cell': gw.key_of(desc, *key),
+                    'formula': gw.formula_text(desc, gw_cell(desc, key)['f'], (key[0], 0)),
+                    'link_table': links, 'observed': xl.show(o),
+                    'accepted': [repr(want)]})
     # 4. dependents see ordinary error values
     if len(ov) == len(fault_keys):
         k = wbrun.compare_with_reference(
